@@ -106,6 +106,7 @@ func capLife(id, tier string, p map[string]bool) LifeOpts {
 
 func lifeFamily(id, tier string, p map[string]bool, tweak func(kind string, o *LifeOpts)) []*engine.Scenario {
 	a, b := baseLife(id, tier, p), r1Life(id, tier, p)
+	a.Regenesis, b.Regenesis = true, true
 	if tweak != nil {
 		tweak("r2", &a)
 		tweak("r1", &b)
@@ -326,7 +327,7 @@ func init() {
 	register(&Check{ID: "C10", Level: "model_checking", Workers: 16,
 		Rule:        "explicit-state DFS over a small lifecycle with an adversary node whose declared TxAddresses range over subsets of {order creator, provider, itself}; in every state every message type with a creator/provider pair is sent by the adversary claiming {itself, the order's gateway, the shard's provider}, plus third-party and sponsor-misuse store submissions; every accepted adversarial message must leave all orders, shards, pledges, nodes, workers, models and all other actors' balances byte-identical; non-trivial = distinct states with a committed model",
 		Assumptions: authAssume,
-		MustSucceed: []string{"auth-store-gateway", "auth-store-hotkey", "auth-store-sponsor", "auth-cancel", "declare", "complete"},
+		MustSucceed: []string{"auth-store-gateway", "auth-store-hotkey", "auth-store-sponsor", "auth-store-bound-account", "rotate", "auth-renew", "auth-update-rw", "auth-cancel", "declare", "complete"},
 		Scenarios:   func(tier string) []*engine.Scenario { return []*engine.Scenario{C10Scenario(tier)} }})
 	register(&Check{ID: "C17", Level: "model_checking", Workers: 16,
 		Rule:        "explicit-state DFS over the did alphabet: Binding(account in {A,B,C,eip155 E} x did in {d1,d2} x creator x proof in {valid, stale, signed by another key, proof for the other DID replayed, malformed}), Update (every partition of the account list into remove/keep, by a bound account and by a stranger), UpdatePaymentAddress (sid and key DIDs x creator x account); registry agreement clauses in every state, binding/unbinding/payment-address step clauses on every transition; non-trivial = distinct states with at least one binding",
